@@ -51,7 +51,7 @@ def attr_c08(ev, names):
 
 
 def attr_c09(ev, names):
-    return fam(ev, "a") and ev["op"] in C09_OPS and any_in(names, {"val", "exp", "flags", "rnd", "panic", "sys"})
+    return fam(ev, "a") and ev["op"] in C09_OPS and any_in(names, {"val", "exp", "flags", "rnd", "panic", "sys", "err"})
 
 
 def attr_c10(ev, names):
